@@ -25,6 +25,7 @@ from __future__ import annotations
 
 import io
 import itertools
+import re
 import zipfile
 from xml.etree import ElementTree as ET
 from xml.sax.saxutils import escape, quoteattr
@@ -72,6 +73,20 @@ CONTAINERS = {"limLow": ("e", "lim"), "limUpp": ("e", "lim"), "box": ("e",), "bo
               "groupChr": ("e",), "sPre": ("sub", "sup", "e"), "eqArr": ("e", "e"), "phant": ("e",)}
 SLOTS = {"f": ("num", "den"), "sSub": ("e", "sub"), "sSup": ("e", "sup"), "sSubSup": ("e", "sub", "sup"),
          "func": ("fName", "e"), "bar": ("e",), "acc": ("e",)}
+
+# Values a character- or enumeration-valued m:val can hold besides the ones the documentation shows: empty, blank,
+# several characters, combining marks only, spacing forms of accents (NFKD-decomposable), a non-BMP character, LaTeX- and
+# XML-special characters, zero-width, unknown enumeration words.  None has a documented rendering (clause 5 is not
+# judged on them); totality, token order and brace balance are.  No value contains a brace or a token.
+ODD_VALUES = ("", " ", "ab", "\u0301\u0308", "\U0001D6FC", "\u00af", "\u02dc", "\\", "&<\"'", "%", "\u200b", "zz", "on", "2", "^_$#")
+_ODDSET = frozenset(ODD_VALUES)
+# (element kind, property element whose m:val is varied, how): "opt" = an option of the spec, "ov" = generic override
+ODD_ATTRS = (
+    ("acc", "chr", "opt"), ("nary", "chr", "opt"), ("d", "begChr", "opt"), ("d", "endChr", "opt"), ("d", "sepChr", "opt"),
+    ("groupChr", "chr", "ov"), ("groupChr", "pos", "ov"), ("groupChr", "vertJc", "ov"), ("bar", "pos", "ov"), ("f", "type", "ov"),
+    ("rad", "degHide", "ov"), ("nary", "limLoc", "ov"), ("nary", "subHide", "ov"), ("nary", "supHide", "ov"),
+    ("m", "count", "ov"), ("m", "mcJc", "ov"), ("sSup", "argSz", "ov"), ("r", "sty", "ov"),
+)
 
 RISKY = {
     "nary-chr-without-val",
@@ -142,6 +157,17 @@ def _val(tag: str, v) -> str:
     return f"<m:{tag} m:val={quoteattr(v)}/>"
 
 
+def _override(xml: str, ov: dict | None, only: tuple | None = None) -> str:
+    """Replace the m:val of the first ``<m:TAG .../>`` in ``xml`` for every TAG in ``ov`` (NOVAL: drop the attribute)."""
+    for tag, v in (ov or {}).items():
+        if only is not None and tag not in only:
+            continue
+        xml, n = re.subn(r'<m:%s(?: m:val="[^"]*")?/>' % re.escape(tag), lambda m: _val(tag, v), xml, count=1)
+        if n != 1:
+            raise ValueError(f"override of m:{tag}: the element is not written by this variant")
+    return xml
+
+
 def _children(nodes: list, ip: int, name: str = "e") -> str:
     out = []
     if ip:
@@ -165,7 +191,7 @@ def _node(n: dict) -> str:
     if k == "r":
         pr = ""
         if n.get("p", 0) & 1:
-            pr += '<m:rPr><m:sty m:val="p"/></m:rPr>'
+            pr += _override('<m:rPr><m:sty m:val="p"/></m:rPr>', n.get("ov"))
         if n.get("p", 0) & 2:
             pr += '<w:rPr><w:rFonts w:ascii="Cambria Math" w:hAnsi="Cambria Math"/><w:i/><w:color w:val="00B050"/></w:rPr>'
         sp = ' xml:space="preserve"' if n.get("sp") else ""
@@ -180,12 +206,16 @@ def _node(n: dict) -> str:
     ip = o.get("ip", 0)
     ctrl = _CTRLPR if o.get("pr") else ""
     slots = "".join(_slot(name, ch, ip) for name, ch in n["s"])
+    ov = o.get("ov")
+    if ov and "argSz" in ov:
+        slots = _override(slots, ov, only=("argSz",))     # the first m:argPr written is this node's own
+        ov = {t: v for t, v in ov.items() if t != "argSz"}
     if k == "f":
         pr = f'<m:fPr><m:type m:val="bar"/>{_CTRLPR}</m:fPr>' if o.get("pr") else ""
     elif k in ("sSub", "sSup", "sSubSup", "func") or k in CONTAINERS:
         inner = ctrl
         if k == "groupChr" and o.get("pr"):
-            inner = '<m:chr m:val="⏟"/><m:pos m:val="bot"/>' + ctrl
+            inner = '<m:chr m:val="⏟"/><m:pos m:val="bot"/><m:vertJc m:val="top"/>' + ctrl
         pr = f"<m:{k}Pr>{inner}</m:{k}Pr>" if o.get("pr") else ""
     elif k == "rad":
         p = o.get("pr", 0)     # 0 none, 1 radPr without degHide, 2 degHide=1, 3 degHide=0
@@ -211,7 +241,7 @@ def _node(n: dict) -> str:
         pr = ('<m:mPr><m:mcs><m:mc><m:mcPr><m:count m:val="2"/><m:mcJc m:val="center"/></m:mcPr></m:mc></m:mcs>'
               f"{_CTRLPR}</m:mPr>") if o.get("pr") else ""
         rows = "".join("<m:mr>" + "".join(_slot("e", cell, ip) for cell in row) + "</m:mr>" for row in n["rows"])
-        return f"<m:m>{pr}{rows}</m:m>"
+        return f"<m:m>{_override(pr, ov)}{rows}</m:m>"
     elif k == "bar":
         p = o.get("pr", 0)     # 0 none, 1 pos=top, 2 pos=bot
         pr = {0: "", 1: f'<m:barPr><m:pos m:val="top"/>{_CTRLPR}</m:barPr>', 2: '<m:barPr><m:pos m:val="bot"/></m:barPr>'}[p]
@@ -219,7 +249,7 @@ def _node(n: dict) -> str:
         pr = f"<m:accPr>{_val('chr', o.get('chr'))}{_CTRLPR if o.get('ctrl') else ''}</m:accPr>" if o.get("pr") else ""
     else:
         raise ValueError(k)
-    return f"<m:{k}>{pr}{slots}</m:{k}>"
+    return f"<m:{k}>{_override(pr, ov)}{slots}</m:{k}>"
 
 
 def to_xml(spec: dict) -> str:
@@ -307,6 +337,9 @@ def _render1(n: dict, a: Analysis, nd: bool, collect: bool) -> str:
                 a.features.add("run-with-rPr")
             if n.get("w"):
                 a.features.add("run:text-in-" + ("w:t-of-m:r" if n["w"] == 1 else "w:r"))
+            for tag in (n.get("ov") or {}):
+                a.features.add(f"odd:r.{tag}")
+                a.unclaimed.add("odd-attribute-value")
             sy = [c for c in t if c in SYMBOLS]
             if sy:
                 a.features.add("mapped-symbol")
@@ -319,6 +352,12 @@ def _render1(n: dict, a: Analysis, nd: bool, collect: bool) -> str:
         a.kinds.add(k)
         if o.get("ip"):
             a.features.add("props-interleaved")
+        for tag in (o.get("ov") or {}):
+            a.features.add(f"odd:{k}.{tag}")
+            a.unclaimed.add("odd-attribute-value")
+        for key, tag in (("chr", "chr"), ("beg", "begChr"), ("end", "endChr"), ("sep", "sepChr")):
+            if k in ("acc", "nary", "d") and o.get(key) in _ODDSET:
+                a.features.add(f"odd:{k}.{tag}")
     rs = lambda name_or_nodes: _render(name_or_nodes, a, nd, collect)
     if k == "m":
         rows = [" & ".join(rs(cell) for cell in row) for row in n["rows"]]
@@ -421,6 +460,8 @@ def _render1(n: dict, a: Analysis, nd: bool, collect: bool) -> str:
             a.features.add("acc:chr=" + ("none" if c is None else "noval" if c == NOVAL else "val"))
             if c is None or c == NOVAL:
                 a.unclaimed.add("acc:accent-undefined-without-chr-value")
+            elif len(c) != 1 or c in _ODDSET:
+                a.unclaimed.add("acc:chr-value-not-a-documented-accent-character")
         return ACCENTS.get(c, r"\hat") + f"{{{g('e')}}}"
     if k in CONTAINERS:
         if collect:
